@@ -114,6 +114,28 @@ func vGenTree(r *rand.Rand, exact bool) []vTreeFile {
 			}
 		}
 	}
+	// one tree in three holds a document far larger than any read buffer a loader
+	// might use (70-310 KB; the largest embedded asset has 62 KB). Decided from what
+	// was generated, without drawing from r.
+	if h := len(out)*31 + len(vocab); h%3 == 0 {
+		for i := range out {
+			if seg := strings.Split(out[i].rel, "/"); len(seg) == 3 && strings.HasSuffix(out[i].rel, "txt") && out[i].content != "" {
+				var sb strings.Builder
+				sb.WriteString(out[i].content)
+				sb.WriteString("\n")
+				for k, n := 0, 70000+(h%7)*40000; sb.Len() < n; k++ {
+					sb.WriteString(vocab[(k*7+h+k/13)%len(vocab)])
+					if k%11 == 10 {
+						sb.WriteString("\n")
+					} else {
+						sb.WriteString(" ")
+					}
+				}
+				out[i].content = sb.String()
+				break
+			}
+		}
+	}
 	return out
 }
 
